@@ -13,7 +13,7 @@ class ExpContext__round_at(Contract):
     properties = ['C01']
     binds = {'result._ctx': 'self'}
     split = ['x', 'exact']
-    options = {'noax_first_ms': 8000}
+    options = {'noax_first_ms': 8000, 'symbolic_tier': 'thorough'}      # 4 cases x ~330 s: thorough tier
 
     def post(self, x, n, exact, result):
         return exp_post(self, x, n, exact, result)
